@@ -72,6 +72,39 @@ pub fn gen_case(t: &mut Tape, tier: Tier) -> Option<Case> {
     Some(Case { p, points, ops })
 }
 
+/// StdRng whose n-th 64-bit output is 0 (so that gen::<f64>() yields exactly 0.0 there)
+#[derive(Clone)]
+pub struct ZeroInjectRng {
+    inner: rand::rngs::StdRng,
+    count: usize,
+    zero_at: Option<usize>,
+}
+impl RngCore for ZeroInjectRng {
+    fn next_u32(&mut self) -> u32 {
+        self.next_u64() as u32
+    }
+    fn next_u64(&mut self) -> u64 {
+        let v = self.inner.next_u64();
+        let i = self.count;
+        self.count += 1;
+        if Some(i) == self.zero_at {
+            0
+        } else {
+            v
+        }
+    }
+    fn fill_bytes(&mut self, dest: &mut [u8]) {
+        for chunk in dest.chunks_mut(8) {
+            let b = self.next_u64().to_le_bytes();
+            chunk.copy_from_slice(&b[..chunk.len()]);
+        }
+    }
+    fn try_fill_bytes(&mut self, dest: &mut [u8]) -> Result<(), rand::Error> {
+        self.fill_bytes(dest);
+        Ok(())
+    }
+}
+
 fn stab_of(b: bool) -> Option<f64> {
     if b {
         Some(1e300)
@@ -151,7 +184,9 @@ fn check_d<const D: usize>(c: &Case, ctx: &mut Ctx) -> Result<(), Failure> {
             }
             Op::SampleRng { seed, meta, debug } => {
                 settings_seen.insert((*meta, *debug, false));
-                let mut rng = rand::rngs::StdRng::seed_from_u64(*seed);
+                // every eighth stream contains an exact 0.0 (a legal output of gen::<f64>(), probability 2^-53 per draw)
+                let zero_at = if seed % 8 == 0 { Some((seed >> 8) as usize % (dim + 1)) } else { None };
+                let mut rng = ZeroInjectRng { inner: rand::rngs::StdRng::seed_from_u64(*seed), count: 0, zero_at };
                 let mut twin = rng.clone();
                 let x: Vec<f64> = (0..dim).map(|_| twin.gen::<f64>()).collect();
                 let ed = sut::edge_data::<D>(&g.massive, &p.kin.masses, &p.kin.shifts);
